@@ -168,6 +168,7 @@ type MapIterV struct {
 	Obj   int
 	Order []int
 	Pos   int
+	Keys  []Val // the keys as they were when the range started, in iteration order (entries deleted meanwhile are skipped)
 }
 
 // StrIterV is a range-over-string iterator (exact strings only).
@@ -212,7 +213,11 @@ func cloneVal(v Val) Val {
 		}
 		return n
 	case *MapIterV:
-		return &MapIterV{Obj: x.Obj, Order: append([]int(nil), x.Order...), Pos: x.Pos}
+		n := &MapIterV{Obj: x.Obj, Order: append([]int(nil), x.Order...), Pos: x.Pos}
+		for _, k := range x.Keys {
+			n.Keys = append(n.Keys, cloneVal(k))
+		}
+		return n
 	case *StrIterV:
 		return &StrIterV{S: x.S, Pos: x.Pos}
 	case *MapObjV:
